@@ -134,7 +134,7 @@ def run(tier, seed):
         raise vf.Infra(f"dead driver: {cnt}")
     rc = out.report()
     sample = [e for e in events if e["ev"] == "Case" and e["n"] in (7, 8, 9) and e["enc"] == "delta"][:1]
-    vf.write_evidence(PROP, tier, seed, "differential_testing", {
+    vf.write_evidence(PROP, tier, seed, "model_checking", {
         "states": states, "transitions": states,
         "traces_validated_against_impl": cnt.get("decoded", 0),
         "samples": [scenarios[0]] + [{k: v for k, v in s.items() if k in ("enc", "kind", "n", "w", "vals", "encoded")} for s in sample],
